@@ -13,6 +13,25 @@ F.DESIGN["C11"] = {"quick": [("OPFPred", "OPFPred.tiefree3.cfg", 2), ("OPFPred",
 FAMILY = ["euclidean", "squared_euclidean", "average_euclidean", "log_euclidean", "log_squared_euclidean"]
 
 
+def strict_reversal(va, vb):
+    """-> (k1, k2) with va[k1] < va[k2] and vb[k1] > vb[k2], or None."""
+    order = sorted(range(len(va)), key=lambda k: va[k])
+    maxb, argb = None, None           # maximum of vb over the items with strictly smaller va
+    g = 0
+    while g < len(order):
+        h = g
+        while h < len(order) and va[order[h]] == va[order[g]]:
+            h += 1
+        for k in order[g:h]:
+            if maxb is not None and vb[k] < maxb:
+                return (argb, k)
+        for k in order[g:h]:
+            if maxb is None or vb[k] > maxb:
+                maxb, argb = vb[k], k
+        g = h
+    return None
+
+
 def safe_rank(rk, v):
     try:
         return rk(v)
@@ -142,7 +161,16 @@ def run(tier, seed):
                     rep.skip("family_member_" + str(why3[1])[:40])
                     continue
                 if t3["W"] != base["W"] or t3["_extra"]["DQ"] != base["_extra"]["DQ"]:
-                    nalt_skipped += 1          # rounding merged or split a tie: outside the hypothesis
+                    # rounding may merge or split a tie (outside the hypothesis: skipped).  It cannot make two members of the family
+                    # order two distances in OPPOSITE ways - each is a non-decreasing function of the same sum of squares, evaluated by
+                    # monotone floating-point operations.  A strict reversal means the identifier is no rescaling of the others.
+                    nn = len(base["W"])
+                    va = [base["W"][i][j] for i in range(nn) for j in range(nn) if i != j] + [v for row in base["_extra"]["DQ"] for v in row]
+                    vb = [t3["W"][i][j] for i in range(nn) for j in range(nn) if i != j] + [v for row in t3["_extra"]["DQ"] for v in row]
+                    rev = strict_reversal(va, vb)
+                    if rev is not None:
+                        rep.violation(S.site(scn), "euclidean_family_member_orders_two_distances_the_other_way", met, {"scenario": s3, "base_metric": scn["metric"], "pair_positions": list(rev)})
+                    nalt_skipped += 1
                     continue
                 alts.append({"proto": t3["fin"]["proto"], "lab": t3["fin"]["lab"], "qres": [x + 1 for x in t3["_extra"]["qres"]], "metric": met})
                 nalt += 1
